@@ -20,7 +20,7 @@ GOLDEN = common.VERIF / "corpus" / "golden_identifiers.json"
 
 
 def prove(ctx):
-    msgs = [hashflags.generate(common.REPO, common.LEAN)]
+    msgs = [hashflags.generate(common.REPO, common.LEAN, probe=identlib.loop_flag_probe(ctx))]
     ctx.notes.append(f"translator(hashflags): {msgs[0][1]}")
     common.check_proofs(ctx, MODULES, translate_msgs=msgs)
 
